@@ -648,6 +648,10 @@ class NUMERIC(FieldType):
             # NaN default of a float field directly; the highest sortable
             # value decodes back to NaN
             default = typecode_max[self.sortable_typecode]
+        elif default != typecode_max[self.sortable_typecode]:
+            # A default given by the user is a number of the field's own
+            # domain, while the column holds the sortable form of the values
+            default = self.to_column_value(default)
         return columns.NumericColumn(self.sortable_typecode, default=default)
 
     def is_valid(self, x):
